@@ -44,7 +44,7 @@ def model(gens, pivots, names, maxstack, maxctx, maxchain, alias, props=True):
 
 class P(flow.Plan):
     pid = "C13"
-    clauses = ["C13_Reverse", "C13_Stack", "C13_Named", "C13_Delete", "C13_Ctx", "C13_Keep", "C13_Pivot", "C13_Matrix", "C13_Angle"]
+    clauses = ["C13_Reverse", "C13_Stack", "C13_Named", "C13_Delete", "C13_Ctx", "C13_Keep", "C13_Pivot", "C13_Matrix", "C13_Angle", "C13_Scale"]
     trace_module = "TransformTrace"
     assumptions = ["probe points (4 affinely independent + 1) determine the affine map observed through apply_transform()",
                    "float runs compare restored states exactly (deep copies give identical floats) and inverses / pivots to 3e-4",
@@ -96,6 +96,8 @@ class P(flow.Plan):
             descs = xform_rec.random_descs(rng, rng.randint(10, 30), exact)
             if i % 6 == 1:          # one rotation by an arbitrary angle, read off directly (added after seed C04d)
                 descs = xform_rec.rotation_descs(rng) + descs
+            if i % 6 == 3:          # one scaling by given (also volume-preserving) factors, read off directly (after seed C04h)
+                descs = xform_rec.scale_descs(rng) + descs
             traces.append(xform_rec.run_descs(descs, exact, {"driver": "random", "seed": sd * 7919 + i}))
             inputs.append({"exact": exact, "descs": descs})
         return traces, inputs
@@ -122,7 +124,19 @@ class P(flow.Plan):
             for p in e["probes"]:
                 p["q"][0] += by
 
-        return [
+        b2 = xform_rec.run_descs([{"call": "translate", "v": [1.5, -2.0, 0.25]}, {"call": "scale", "v": [2.0, 1.0, 0.5]},
+                                  {"call": "rotate", "angle": 30.0, "axis": "z"}], False, {"driver": "control-base"})
+        b3 = xform_rec.run_descs([{"call": "set_pivot", "P": [1.0, 2.0, 0.0]}, {"call": "rotate", "angle": 30.0, "axis": "z"}], False,
+                                 {"driver": "control-base"})
+
+        def mut_of(base, clause, step, fn):
+            t = copy.deepcopy(base)
+            fn(t["ev"][step - 1])
+            t["meta"]["control"] = {"clause": clause, "step": step}
+            return t
+        more = [mut_of(b2, "C13_Scale", 2, lambda e: e["a"]["sv4"].__setitem__(0, e["a"]["sv4"][0] + 100)),      # "asked for 2.01"
+                mut_of(b3, "C13_Angle", 2, lambda e: e["a"].__setitem__("ang5", e["a"]["ang5"] + 1000))]        # "asked for 30.6 degrees"
+        return more + [
             mut("C13_Reverse", 5, lambda e: e["probes"][1]["r"].__setitem__(1, e["probes"][1]["r"][1] + 50)),
             mut("C13_Stack", 12, shift_q),
             mut("C13_Named", 11, shift_q),          # the aliasing defect F9 looks exactly like this
